@@ -112,7 +112,8 @@ def hostile_program(rnd, p):
         a, b = rnd.choice(names), rnd.choice(names)
         k = rnd.choice([0, 1, -1, 2, p, p + 1, -p, 1 << 260, 3])
         st = rnd.choice(["{a} * {b}", "{a} + {b}", "{a} - {b}", "{a} * %d" % k, "{a} + %d" % k, "{a} - {a}", "{a} * {a} - {b}",
-                         "({a} - {a}) * {b}", "{a} * 0 + {b}"]).format(a=a, b=b)
+                         "({a} - {a}) * {b}", "{a} * 0 + {b}", "{a} + LinComb.ZERO", "{a} - LinComb.ZERO", "LinComb.ZERO + {a}", "LinComb.ZERO - {a}",
+                         "{a} * {b} + LinComb.ZERO * 5", "({a} + {b}) + ({a} - {a})", "{a} + ({a} * 2 + {b})", "({a} * 2 + {b}) + {a}"]).format(a=a, b=b)
         name = "v%d" % j
         lines.append("%s = %s" % (name, st))
         names.append(name)
@@ -122,3 +123,13 @@ def hostile_program(rnd, p):
                                  "LinComb.ZERO.assert_zero()", "z%d = (%s - %s).check_zero()" % (j, a, a),
                                  "(%s * 1).assert_eq(%s)" % (a, a)]))
     return "\n".join(lines) + "\n", inputs
+
+
+def sized_program(npub, npriv, ncons):
+    """a program with exactly npub public values, npriv further private values and >= ncons constraints: buffer growth, section
+    sizes and count fields of the writers are exercised at every size, not only at the sizes ordinary programs happen to have"""
+    lines = ["pubs = [PubVal(I[0] + k) for k in range(%d)]" % npub, "privs = [PrivVal(I[1] - k) for k in range(%d)]" % npriv,
+             "allv = pubs + privs"]
+    if ncons:
+        lines.append("for k in range(%d):\n    if len(allv) > 1:\n        (allv[k %% len(allv)] * allv[(k + 1) %% len(allv)]).assert_eq(allv[k %% len(allv)].value * allv[(k + 1) %% len(allv)].value)" % ncons)
+    return "\n".join(lines) + "\n", [3, -4]
